@@ -889,7 +889,7 @@ func (p *queryPlan) projectAndGroupBy() error {
 		// Update sorting configuration.
 		found := false
 		for _, g := range p.stm.GroupByBindings() {
-			if prj.Binding == g {
+			if g == prj.Alias || (prj.Alias == "" && g == prj.Binding) {
 				found = true
 			}
 		}
